@@ -131,3 +131,37 @@ void use_ctor_i(int s, int x, int y, int z, int w, float k, const vec2i &p, cons
   vec3i viaconv = ra;
   use(viaconv);
 }
+
+// ================================================================ inventory closure (round 8): double across the families, 8/16-bit element
+// types for the functor-expanded families and mixed scalar operands, lerp / clamp (rkmath.h templates) on vectors, madd on double
+typedef vec_t<int16_t, 2> vec2s_; typedef vec_t<int16_t, 3> vec3s_; typedef vec_t<int16_t, 3, true> vec3sa; typedef vec_t<int16_t, 4> vec4s_;
+USE_UNARY_ARITH(vec2d) USE_UNARY_ARITH(vec3d) USE_UNARY_ARITH(vec3da) USE_UNARY_ARITH(vec4d)
+USE_UNARY_ARITH(vec2s_) USE_UNARY_ARITH(vec3s_) USE_UNARY_ARITH(vec3sa) USE_UNARY_ARITH(vec4s_)
+USE_UNARY_ARITH(vec2uc) USE_UNARY_ARITH(vec3uc) USE_UNARY_ARITH(vec3uca) USE_UNARY_ARITH(vec4uc)
+USE_UNARY_FLOAT(vec2d) USE_UNARY_FLOAT(vec3d) USE_UNARY_FLOAT(vec3da) USE_UNARY_FLOAT(vec4d)
+USE_BIN4(vec2d, vec2d, double) USE_BIN4(vec3d, vec3d, double) USE_BIN4(vec3da, vec3da, double) USE_BIN4(vec3d, vec3da, double)
+USE_BIN4(vec3da, vec3d, double) USE_BIN4(vec4d, vec4d, double)
+USE_BIN4(vec2s_, vec2s_, int16_t) USE_BIN4(vec3s_, vec3s_, int16_t) USE_BIN4(vec3sa, vec3sa, int16_t) USE_BIN4(vec4s_, vec4s_, int16_t)
+USE_REM(vec2s_, vec2s_, int16_t) USE_REM(vec3s_, vec3s_, int16_t) USE_REM(vec4s_, vec4s_, int16_t)
+USE_MIX4(vec2uc, vec2i, uint8_t, int) USE_MIX4(vec3uc, vec3i, uint8_t, int) USE_MIX4(vec3uca, vec3ia, uint8_t, int) USE_MIX4(vec4uc, vec4i, uint8_t, int)
+USE_MIX4(vec2s_, vec2i, int16_t, int) USE_MIX4(vec3s_, vec3i, int16_t, int) USE_MIX4(vec4s_, vec4i, int16_t, int)
+USE_ASSIGN4(vec2d, vec2d, double) USE_ASSIGN4(vec3d, vec3d, double) USE_ASSIGN4(vec3da, vec3da, double) USE_ASSIGN4(vec4d, vec4d, double)
+void use_madd_d(const vec3d &a, const vec3d &b, const vec3d &c, const vec3da &d, const vec3da &e, const vec3da &f) { use(madd(a, b, c)); use(madd(d, e, f)); }
+USE_CMP(vec2d, vec2d) USE_CMP(vec3d, vec3d) USE_CMP(vec3da, vec3da) USE_CMP(vec3d, vec3da) USE_CMP(vec3da, vec3d) USE_CMP(vec4d, vec4d)
+USE_DOT(vec2d, vec2d) USE_DOT(vec3d, vec3d) USE_DOT(vec3da, vec3da) USE_DOT(vec3d, vec3da) USE_DOT(vec3da, vec3d) USE_DOT(vec4d, vec4d)
+USE_CROSS(vec3d, vec3d) USE_CROSS(vec3da, vec3da)
+#define USE_NORM_D(V) \
+  void use_normd_##V(const V &a, const V &b, const V &c, const vec3d &f) \
+  { use(length(a)); use(normalize(a)); use(safe_normalize(a)); use(interpolate_uv(f, a, b, c)); }
+USE_NORM_D(vec2d) USE_NORM_D(vec3d) USE_NORM_D(vec3da) USE_NORM_D(vec4d)
+USE_MINMAX(vec2d) USE_MINMAX(vec3d) USE_MINMAX(vec3da) USE_MINMAX(vec4d)
+USE_MINMAX(vec2s_) USE_MINMAX(vec3s_) USE_MINMAX(vec3sa) USE_MINMAX(vec4s_) USE_MINMAX(vec2uc) USE_MINMAX(vec3uc) USE_MINMAX(vec3uca) USE_MINMAX(vec4uc)
+USE_DRU(vec2s_) USE_DRU(vec3s_) USE_DRU(vec3sa) USE_DRU(vec4s_) USE_DRU(vec2uc) USE_DRU(vec3uc) USE_DRU(vec3uca) USE_DRU(vec4uc)
+USE_REDUCE(vec2d) USE_REDUCE(vec3d) USE_REDUCE(vec3da) USE_REDUCE(vec4d)
+USE_LESS(vec2d) USE_LESS(vec3d) USE_LESS(vec3da) USE_LESS(vec4d)
+#define USE_LERP_CLAMP(V) \
+  void use_lerp_clamp_##V(float f, const V &a, const V &b, const V &c) { use(lerp(f, a, b)); use(clamp(a, b, c)); }
+USE_LERP_CLAMP(vec2f) USE_LERP_CLAMP(vec3f) USE_LERP_CLAMP(vec3fa) USE_LERP_CLAMP(vec4f)
+USE_LERP_CLAMP(vec2d) USE_LERP_CLAMP(vec3d) USE_LERP_CLAMP(vec3da) USE_LERP_CLAMP(vec4d)
+#define USE_CLAMP(V) void use_clamp_##V(const V &a, const V &b, const V &c) { use(clamp(a, b, c)); }
+USE_CLAMP(vec2i) USE_CLAMP(vec3i) USE_CLAMP(vec3ia) USE_CLAMP(vec4i)
